@@ -13,11 +13,14 @@ func init() { register("C09", checkC09) }
 // c09Assumptions: exits that reading shows unreachable for a live resource
 // through the public API. Each is applied at its source (the summary of the
 // named function) and must be used at least once, otherwise it is stale.
+// Exits are named by RoleCanon: locals appear as what they are (receiver,
+// parameter position, "callee#result"), so renaming them or naming the
+// condition first does not make an assumption stale.
 func c09Assumptions(o *Own) {
-	o.Assume["candidateBase.start: return under [($c.conn != nil)]"] = "start is only called on freshly constructed candidates (R9.6 decides this: every caller passes the result of a NewCandidate* call made in the same function), whose conn is nil"
-	o.Assume["Agent.addRelayCandidates: return under [!$ok]"] = "resolveRelayAddresses fails only if the relay's own local address does not parse or a replace-mode rule matched with an empty mapping; rule mappings are validated non-empty per family at construction and IPv6 TURN is skipped"
-	o.Assume["Agent.addRelayCandidates: return under [(($ep.conn == nil) || ($ep.address == nil))]"] = "ep.conn is the allocation just returned with a nil error and ep.address its LocalAddr IP"
-	o.Assume["Agent.createRelayCandidate: return under [($err != nil)]|nClose"] = "NewCandidateRelay fails only on an unparsable address; the address is net.IP.String() of the relayed or mapped address and the network is the constant udp"
+	o.Assume["candidateBase.start: return under [(recv.conn != nil)]"] = "start is only called on freshly constructed candidates (R9.6 decides this: every caller passes the result of a NewCandidate* call made in the same function), whose conn is nil"
+	o.Assume["Agent.addRelayCandidates: return under [!ice.Agent.resolveRelayAddresses#1]"] = "resolveRelayAddresses fails only if the relay's own local address does not parse or a replace-mode rule matched with an empty mapping; rule mappings are validated non-empty per family at construction and IPv6 TURN is skipped"
+	o.Assume["Agent.addRelayCandidates: return under [((param1.conn == nil) || (param1.address == nil))]"] = "ep.conn is the allocation just returned with a nil error and ep.address its LocalAddr IP"
+	o.Assume["Agent.createRelayCandidate: return under [(ice.NewCandidateRelay#1 != nil)]|nClose"] = "NewCandidateRelay fails only on an unparsable address; the address is net.IP.String() of the relayed or mapped address and the network is the constant udp"
 }
 
 // c09Scope: the functions whose acquisitions belong to gathering — everything
